@@ -45,6 +45,9 @@ type Cfg struct {
 	// UI: the replay plays the main loop of client/main.go with the real text UI (client/usif/textui.MainThread) on a piped
 	// keyboard and a seeded operator typing commands, most of them while a block is being committed (operator.go)
 	UI bool `json:"ui,omitempty"`
+	// AuxAbortOnly: the auxiliary goroutine calls AbortWriting but never HurryUp (job abort: a hurried saver does not look at
+	// the abort channel between chunks, so hurrying would turn every abort into "wait for the complete snapshot")
+	AuxAbortOnly bool `json:"aux_abort_only,omitempty"`
 }
 
 var goHeapMalloc, goHeapFree = utxo.Memory_Malloc, utxo.Memory_Free
@@ -215,6 +218,29 @@ func (rc *recorder) hook(name string) {
 		s.Where = "renamed"
 		rc.addSnap(s)
 	}
+	if name == "utxo.save.file:abort-removed" {
+		// the file goroutine of an ABORTED save has just removed its temporary file. save() moved the previous UTXO.db to
+		// UTXO.old when it began and the next save() cannot begin before this goroutine reports lastFileClosed: at this point
+		// no file may carry the name UTXO.db, and no temporary file may be left
+		if _, e := os.Stat(rc.dir + "UTXO.db"); e == nil {
+			s := readSnapshot(rc.dir + "UTXO.db")
+			s.Where = "after-abort"
+			if s.Err == "" {
+				s.Err = "a file named UTXO.db exists right after a snapshot was aborted and its temporary file removed"
+			}
+			rc.addSnap(s)
+		}
+		m, _ := filepath.Glob(rc.dir + "*.db.tmp")
+		left := 0
+		for _, f := range m {
+			if fi, e := os.Lstat(f); e == nil && !fi.IsDir() { // (scenario createfail blocks a name with a directory)
+				left++
+			}
+		}
+		if left > 0 {
+			rc.addSnap(Snap{Where: "after-abort", Err: fmt.Sprint("temporary snapshot file still present after utxo.save.file:abort-removed: ", left)})
+		}
+	}
 	rc.ev(name)
 	if rc.onPoint != nil {
 		rc.onPoint(name)
@@ -278,6 +304,11 @@ func (rc *recorder) addSnap(s Snap) {
 // readSnapshot parses a UTXO.db file independently of NewUnspentDb: header (height, hash, count) and
 // the records, rendered exactly like chainkit.UtxoDump.
 func readSnapshot(path string) (s Snap) {
+	if fi, e := os.Lstat(path); e == nil && fi.Mode()&os.ModeNamedPipe != 0 {
+		// directed scenarios that use a FIFO as the temporary file ("slow disk"): reading it here would block for ever
+		s.Err = "the file is the FIFO that stood for the temporary file of a snapshot (directed scenario): that temporary file was renamed to " + filepath.Base(path)
+		return
+	}
 	b, err := os.ReadFile(path)
 	if err != nil {
 		s.Err = "unreadable: " + err.Error()
@@ -685,6 +716,9 @@ func replay(sc *scenario, cfg Cfg, out *WorkerOut) {
 					// combination the node does not have (every call site of AbortWriting is on the main goroutine: generated fact
 					// mainOnlyCallSites) - its writingDone.Wait would run concurrently with Save's writingDone.Add
 					c = 0
+				}
+				if cfg.AuxAbortOnly && c == 0 {
+					c = 2
 				}
 				switch c {
 				case 0:
@@ -1099,7 +1133,7 @@ func workerMain(args []string) {
 	seed := fs.Uint64("seed", 1, "")
 	tier := fs.String("tier", "quick", "")
 	outp := fs.String("out", "", "")
-	only := fs.String("only", "", "run only this part: chain | resave | compr | createfail | recycle | bigsnap | operator")
+	only := fs.String("only", "", "run only these parts (comma list): chain | resave | compr | createfail | recycle | bigsnap | operator | abort | abortfull")
 	shard := fs.Int("shard", 0, "")
 	fs.Parse(args)
 	out := &WorkerOut{Seed: *seed, Hist: map[string]int{}}
@@ -1238,6 +1272,14 @@ func workerMain(args []string) {
 			replay(sc, cfg, out)
 			out.Hist[fmt.Sprintf("replay-recycle:procs=%d", cfg.Procs)]++
 		}
+	}
+	if part("abort") {
+		abortJob(*seed, *shard, thorough, gt, out)
+	}
+	if part("abortfull") {
+		t0 := time.Now()
+		directedAbortFull(*seed+uint64(*shard)*104729, gt, out)
+		out.Timing = append(out.Timing, fmt.Sprintf("abortfull %.1fs", time.Since(t0).Seconds()))
 	}
 	if part("compr") {
 		// compressed-records mode: SerializeC's shared scratch pool with several serializations in flight
